@@ -38,6 +38,19 @@ def cases(tier, rng):
             yield Case(f"tile.addr {lgw} {h}", check=addr_check(lgw, h), tag=f"addr-w{1 << lgw}")
         for h in (hs if not thorough else hs[:12] + [32, 64]):
             yield Case(f"tile.acc {lgw} {h} {rng.randrange(1, 1 << 30)}", tag=f"acc-w{1 << lgw}")
+    # the indices reported for a tile are those of the mapping entry the tile refers to NOW: the mapping index is rewritten in place
+    # (Map::tiles is public) between queries of the same coordinate
+    for lgw, h, x, y in ((5, 1, 21, 0), (5, 3, 0, 2), (6, 2, 33, 1), (7, 4, 100, 3)):
+        ks = [rng.randrange(2048) for _ in range(6)] + [0, 2047, 1248]
+        ops = []; want = []
+        cur = 0
+        for i, k in enumerate(ks):
+            ops.append("q"); want.append(cur)
+            if i % 3 == 2: ops.append("p"); want.append(cur)
+            ops.append(f"k{k}"); cur = k
+            ops.append("q"); want.append(cur)
+        exp = ",".join(f"{k}:{(3 * k + 1) & 0xFFFF}:{(5 * k + 2) & 0xFFFF}" for k in want)
+        yield Case(f"tile.remap {lgw} {h} {x} {y} {','.join(ops)}", expect=exp, tag="mapping-rewritten-between-queries")
     yield Case("tile.acc 6 32 0", tag="acc-all-mappings")
     yield Case("tile.acc 7 32 0", tag="acc-all-mappings")
     words = [0, M32, 0x12345678, 0x0000FFE0, 31, 0xFFFFFFE0, 0x10000000, 0xEFFFFFFF] + [rng.randrange(1 << 32) for _ in range(8 if not thorough else 64)]
